@@ -607,7 +607,7 @@ def needs_sep(a, b):
     return False
 
 
-WS_ALTS = [" ", "  ", "\t", "\n", "\r\n", " \t ", "/**/", "/* c */", " /* a*b / c */ ", "/***/", "/* \n */", " /*x*/ /*y*/ ", "/*é😀*/"]
+WS_ALTS = [" ", "  ", "\t", "\n", "\r\n", " \t ", "/**/", "/* c */", " /* a*b / c */ ", "/***/", "/* \n */", " /*x*/ /*y*/ ", "/*é😀*/", "/*/*/", "/*/ x */", "/* / * /* */", "/*\"*/", "/*//*/"]
 
 
 def join(tokens, alt):
